@@ -75,6 +75,32 @@ CLAIMED = {
               "visits n-1..0, for every n including 0. The iterator accessors of fixed_vector (a listed container kind) are verified with it."),
         note=TRUST + " Aliasing of lvalue ranges and lifetime of temporaries follow from declared member types, which are read from the source and reported as static facts, not obligations; std::reverse_iterator is a stub.",
         ref="5 (C20)", technique="CBMC function contracts (DFCC) over abstract iterator positions with loop-invariant iteration lemmas"),
+    "C05": dict(
+        text=("Modular proof: smart_stream (constructor, move constructor, destructor, record, sstr, operator bool), the four operator<< overloads, "
+              "logger::{will_log, log, trace..fatal}, set_tag/set_severity/set_timestamp, severity_filter and the and/or/not combinators (each proved for "
+              "arbitrary sub-filter results, hence any filter expression), sequence::sink with lang::tuple_foreach/for_each (evaluation order of the pack "
+              "expansion is modelled), and the compile-time gate are extracted and verified by contract. Statement lemmas (base, step for an arbitrary "
+              "number i of items already streamed, final) give by induction: exactly one record reaches formatter and sink iff the filter accepts, "
+              "with the statement's severity and tag and a message equal to the streamed items in order, in both syntactic forms; moved-from "
+              "temporaries emit nothing. The enum order and the gate `severity >= minimum` are checked for all 36 pairs."),
+        note=TRUST + " Formatter/Sink/Filter base classes, std::stringstream and unique_ptr are stubs; the C++ rule that temporaries die at the end of the full expression is encoded in the lemma harness; 'records of one thread arrive in program order' follows from sequential execution of destructors and is not a separate obligation.",
+        ref="5 (C05)", technique="CBMC function contracts (DFCC) with ghost call counters and induction-step statement lemmas"),
+    "C10": dict(
+        text=("Same unit as C05, clauses on lazy evaluation: null_stream's operator<< overloads have empty frames (they call nothing and store nothing), "
+              "the callable overloads call the callable exactly once iff the stream is live and never otherwise (ghost call counter), a stream rejected "
+              "by the runtime filter owns nothing so no formatter/sink/callable call can follow (step and final lemmas), and the compile-time gate maps "
+              "severities below the minimum to null_stream (the mapping true->smart_stream / false->null_stream is read from the source)."),
+        note=TRUST + " Which overload a callable selects (is_callable SFINAE) is a compile-time fact not verified by CBMC.",
+        ref="5 (C10)", technique="CBMC function contracts (DFCC): empty-frame contracts and ghost call counters"),
+    "C09": dict(
+        category="other",
+        text=("Contract-based verification is sequential, so interleavings are NOT explored. What is proved, for both thread-safe sinks: the lock "
+              "discipline from which the property follows by the mutex axiom - sink() takes the mutex returned by the accessor (the same object on "
+              "every call: the harness obtains it before the call), every write and the flush happen while it is held (preconditions of the stream "
+              "stubs), exactly one write per record, and the mutex is released on return (lock_guard / unique_lock scopes are extracted with their "
+              "scope ends). With std::mutex giving mutual exclusion, writes of distinct calls cannot interleave; with C05, one record is one call."),
+        note="ASSUMED, not checked: std::mutex provides mutual exclusion; function-local statics are initialised thread-safely; the memory model. " + TRUST,
+        ref="5 (C09), 6", technique="CBMC function contracts (DFCC): sequential proof of lock discipline; schedules by assumption"),
     "C07": dict(
         text=("Same functions as C06, abstract-view postconditions: appends add at the end, erase removes one element and shifts the tail, "
               "positional emplace inserts before pos, copy yields equal elements on independent storage, move/assignment transfer the whole "
